@@ -34,10 +34,11 @@ def run(ctx, mode='C02'):
         scope = ctx.rng.choice(['func'] * 7 + ['module'] * 2 + ['class'])
         if c03:
             g = pygen.Gen(ctx.rng, allow_return=False, full_raise=True, max_stmts=ctx.rng.choice([4, 6, 8]), max_depth=3,
-                          comps=(scope != 'class'))
+                          comps=(scope != 'class'), names=ctx.rng.choice([None, None, pygen.POOL[:2], pygen.POOL[:3]]))
             trees.append((g.program(lo=2, hi=4), scope))
         else:
-            g = pygen.Gen(ctx.rng, allow_return=(scope == 'func'), full_raise=False, comps=(scope != 'class'))
+            g = pygen.Gen(ctx.rng, allow_return=(scope == 'func'), full_raise=False, comps=(scope != 'class'),
+                          names=ctx.rng.choice([None, None, pygen.POOL[:2], pygen.POOL[:3]]))
             trees.append((g.program(), scope))
 
     src_of, lay_of = {}, {}
